@@ -27,7 +27,7 @@ PROPS = {
 PROPS["C02"] = {
     "features": None,
     "technique": "Lean 4 proof: no model outcome is `panic`/`outOfFuel` (induction on fuel over reader laws); differential run on the malformed stream",
-    "level_text": "Machine-checked proof that, in the model, the value decoder (all 256 tags, all bodies), the blocking parser on every byte string, and both parsers over every scripted source return a value or an error value: every place where the Rust would panic (bytes::Buf reads, slicing, advance) is an explicit `panic` outcome and is proved unreachable, and the loop provably finishes within fuel length+1. The model is tied to the code by running the complete tag x length x fill grid, all short strings, all token sequences up to k, grammar-aware mutations and 1 MiB structural bombs through the real decoder/parsers (blocking and async, each followed by display, re-encoding, traversal, clone, drop; bombs in a child process) and diffing with the model. Partial: stack exhaustion of the recursive Drop/Clone/Display on values nested >= ~16k levels is runtime behaviour the model cannot exhibit; it is observed by the harness and reported as known finding K2.",
+    "level_text": "Machine-checked proof that, in the model, the value decoder (all 256 tags, all bodies), the blocking parser on every byte string, and both parsers over every scripted source return a value or an error value: every place where the Rust would panic (bytes::Buf reads, slicing, advance) is an explicit `panic` outcome and is proved unreachable, and the loop provably finishes within fuel length+1. `depth_linear` / `depth_sum_linear` / `depth_linear_blocking` / `depth_linear_async`: on every accepted input the nesting depth of every returned value – indeed the sum of the depths of all returned values plus the 8 header octets – is at most the number of bytes consumed (potential argument over the collection stack), also through both stream readers under any fault-free fragmentation; with `depth_unbounded` / `nest_size` (depth n+1 from 16n+10 bytes of attribute data) this pins the growth of known finding K2 from both sides. The model is tied to the code by running the complete tag x length x fill grid, all short strings, all token sequences up to k, grammar-aware mutations, messages whose consecutive name / value lengths rise, fall or repeat across buffer-size thresholds, and 1 MiB structural bombs through the real decoder/parsers (blocking and async, each followed by display, re-encoding, traversal, clone, drop; bombs in a child process) and diffing with the model. Partial: stack exhaustion of the recursive Drop/Clone/Display on values nested >= ~16k levels is runtime behaviour the model cannot exhibit; it is observed by the harness and reported as known finding K2.",
     "level_note": "Trusts the Lean kernel, the translator, the correspondence check; `bytes::Buf` panics-when-short and `from_utf8_lossy` are modelled library behaviour (validated on every run). Stack depth, allocator and wall-clock are observed only.",
     "design_ref": "DESIGN.md section 9, C02",
     "trusted_base": COMMON_TB + [
@@ -52,7 +52,7 @@ CODEC_TB = COMMON_TB + [
 PROPS["C01"] = {
     "features": None,
     "technique": "Lean 4 proof: refinement (C04) composed with reference-encoding theorem (C03), for all listings; differential round trips",
-    "level_text": "Machine-checked theorem `roundtrip`: for every header, every message of the public value model (all 22 kinds, mixed sets, collections of any depth with multi-valued members, repeated/empty groups, every name/value within the 16-bit wire length), every iteration order of every attribute map and every payload, the model parser applied to the model encoder's bytes followed by the payload returns exactly (header, groups, payload); `roundtrip_any` (the same for *every* list of groups, up to `opFirst`: the first operation group moved to the front, an empty one supplied when there is none – `opFirst_only_reorders`, `opFirst_without_operation_group`, `opFirst_id_of_wf`); plus `singleton_set`. No size or depth bound; proved by structural induction over the value type and the loop's fuel. Tie to the code: on every run seeded random messages are built with fresh randomly keyed hash maps, encoded and parsed by the real code, and both the bytes and the parse result are diffed against the model; the round-trip oracle runs on the real code.",
+    "level_text": "Machine-checked theorem `roundtrip`: for every header, every message of the public value model (all 22 kinds, mixed sets, collections of any depth with multi-valued members, repeated/empty groups, every name/value within the 16-bit wire length), every iteration order of every attribute map and every payload, the model parser applied to the model encoder's bytes followed by the payload returns exactly (header, groups, payload); `roundtrip_any` (the same for *every* list of groups, up to `opFirst`: the first operation group moved to the front, an empty one supplied when there is none – `opFirst_only_reorders`, `opFirst_without_operation_group`, `opFirst_id_of_wf`); plus `singleton_set`, `encode_injective` (two (message, payload) pairs with the same bytes under any two iteration orders are the same header, groups and payload: the encoding is unambiguous and the attribute/payload boundary is determined by the bytes) and `listing_irrelevant`. No size or depth bound; proved by structural induction over the value type and the loop's fuel. Tie to the code: on every run seeded random messages are built with fresh randomly keyed hash maps, encoded and parsed by the real code, and both the bytes and the parse result are diffed against the model; the round-trip oracle runs on the real code.",
     "level_note": "Trusts the Lean kernel, the translator, the correspondence check, and the modelled-library assumptions listed in the evidence (HashMap/BTreeMap/bytes/from_utf8_lossy). The theorem is about the model; the model is validated on the explored messages.",
     "design_ref": "DESIGN.md section 9, C01",
     "trusted_base": CODEC_TB,
